@@ -289,7 +289,10 @@ func (g *TG) Struct(depth int) reflect.Type {
 			} else {
 				// unexported fields are skipped whatever their tag says
 				utag := []string{"", "", `plenc:"1"`, fmt.Sprintf(`plenc:"%d"`, idx), `plenc:"x"`, `plenc:"2,flat"`}[g.R.IntN(6)]
-				fs = append(fs, reflect.StructField{Name: fmt.Sprintf("u%d", i), PkgPath: "verifharness/gen", Type: t, Tag: reflect.StructTag(utag)})
+				// (unexported means "does not start with an upper-case letter": lower case, an underscore, or a
+				// letter that has no case at all)
+				uname := []string{"u", "u", "_", "_x", "秘", "ש", "ǅ", "é"}[g.R.IntN(8)]
+				fs = append(fs, reflect.StructField{Name: fmt.Sprintf("%s%d", uname, i), PkgPath: "verifharness/gen", Type: t, Tag: reflect.StructTag(utag)})
 			}
 			continue
 		}
